@@ -548,6 +548,58 @@ func run(c *fw.Ctx) {
 			}
 		}
 	}
+	// uGO values handed to ToObject as they are (Object in, Object out): nil containers of the named uGO types stay
+	// containers of their type (nil and empty being interchangeable), they do not turn into undefined
+	for _, nc := range []struct {
+		name string
+		o    ugo.Object
+		want string
+	}{{"ugo.Map(nil)", ugo.Map(nil), "map"}, {"ugo.Array(nil)", ugo.Array(nil), "array"}, {"ugo.Bytes(nil)", ugo.Bytes(nil), "bytes"},
+		{"ugo.Map{}", ugo.Map{}, "map"}, {"ugo.Array{}", ugo.Array{}, "array"}, {"ugo.String(\"\")", ugo.String(""), "string"}} {
+		for _, nest := range []int{0, 1, 2} {
+			if !c.Next() {
+				continue
+			}
+			c.Nontrivial()
+			var in any = nc.o
+			switch nest {
+			case 1:
+				in = []any{nc.o, int64(1)}
+			case 2:
+				in = map[string]any{"k": nc.o}
+			}
+			for _, alt := range []bool{false, true} {
+				name, f := "ToObject", ugo.ToObject
+				if alt {
+					name, f = "ToObjectAlt", ugo.ToObjectAlt
+				}
+				o, err, pan := protectObj(func() (ugo.Object, error) { return f(in) })
+				key := fmt.Sprintf("O|%s|%s nest=%d", name, nc.name, nest)
+				if pan != nil || err != nil {
+					c.Violation(key, fmt.Sprintf("%s(%s nest=%d): error %v panic %v", name, nc.name, nest, err, pan), nil)
+					continue
+				}
+				got := o
+				switch nest {
+				case 1:
+					if a, ok := o.(ugo.Array); ok && len(a) == 2 {
+						got = a[0]
+					}
+				case 2:
+					if m, ok := o.(ugo.Map); ok {
+						got = m["k"]
+					}
+				}
+				if got == nil || got.TypeName() != nc.want {
+					tn := "<nil>"
+					if got != nil {
+						tn = got.TypeName()
+					}
+					c.Violation(key, fmt.Sprintf("%s(%s nest=%d) gives a value of type %s, want %s", name, nc.name, nest, tn, nc.want), nil)
+				}
+			}
+		}
+	}
 	// typed nil pointers of the object types the stdlib registers: ToInterface must not panic on them
 	for _, tn := range []struct {
 		name string
